@@ -133,6 +133,7 @@ type c08Target struct {
 	name   string
 	frames []c08.Frame
 	magics [][]byte
+	grid   func(target string, yield func(c08.Case) bool) bool // constructed frames (optional)
 }
 
 func c08Gen(ts []c08Target) func(yield func(c08.Case) bool) {
@@ -148,11 +149,20 @@ func c08Gen(ts []c08Target) func(yield func(c08.Case) bool) {
 					return
 				}
 			}
+			// path-selecting bytes (command type, flag byte, TLV heads ...) x length-field boundary values
+			for _, f := range tg.frames {
+				if !c08.SelectorMutations(tg.name, f, yield) {
+					return
+				}
+			}
+			if tg.grid != nil && !tg.grid(tg.name, yield) {
+				return
+			}
 		}
 	}
 }
 
-const c08Bound = "per codec: every frame of the alphabet x {every truncation; every length field x {0,1,2,3,true-1,true+1,2^16-1,2^31-1,2^31,2^32-1} (clamped to the field width); every byte x {0x00,0xFF,^b} (thorough: x all 256 values); every block +1..3 bytes of {00,01,FF} and -1..3 bytes with lengths adjusted; 1..3 trailing bytes}; all byte strings of length <=2; all 3-byte strings starting with the protocol magic"
+const c08Bound = "per codec: every frame of the alphabet x {every truncation; every length field x {0,1,2,3,true-1,true+1,2^16-1,2^31-1,2^31,2^32-1} (clamped to the field width); every byte x {0x00,0xFF,^b} (thorough: x all 256 values); every block +1..3 bytes of {00,01,FF} and -1..3 bytes with lengths adjusted; 1..3 trailing bytes}; all byte strings of length <=2; all 3-byte strings starting with the protocol magic; every path-selecting byte (bolt: protocol code, command type, command code, codec, v2 switch; dubbo: flag, status; dubbo-thrift: version, strict-version bytes, message type; tars: the head byte of every length-carrying TLV, SIMPLE_LIST element type, head of every size INT) x all 256 values, and x {0..7, single bits, single cleared bits, 0xFF, single-bit flips of the true value, true+-1} x every length field (tars: the TLV's own length and the packet length) x the length boundary set; constructed grids: bolt/boltv2 {cmdType 0..3} x {cmdCode 0..2} x classLen {0,1,2} x headerLen {0,1,3,4,5,8,9,10} x contentLen {0,1,2} x 2 header fills x {complete, -1 byte, +1 byte}; dubbo {all 256 flag bytes} x status {0,20,255} x 7 payloads (request payload cut to 0,1,2,3,len-1,len bytes; null), each for the 3 listener configurations"
 const c08Rule = "each input is decoded three times through XProtocol.Decode + ProtocolMatch (exact-capacity buffer, 4096 spare bytes of 0xA5, of 0x3C); distinct = distinct input bytes per target; outcome = (target, class, frame|more|error|panic). Oracle: no panic escapes (a panic the codec recovers and returns as an error is allowed); outcomes with different poison identical; TotalAlloc delta of a call <= 1MiB+32*len(input) (confirmed by the minimum of 3 re-measurements); the call returns (60s; or >300ms with >128MiB in use and growing). What a decoder returns for a corrupted frame (frame vs error vs more) is NOT compared."
 
 func c08Run(t *testing.T, part string, ts []c08Target) {
@@ -170,33 +180,35 @@ func c08Run(t *testing.T, part string, ts []c08Target) {
 
 func TestVerifC08Bolt(t *testing.T) {
 	t.Parallel()
-	c08Run(t, "bolt", []c08Target{{"bolt", c08.BoltFrames(false), [][]byte{{0x01}}}})
+	c08Run(t, "bolt", []c08Target{{"bolt", c08.BoltFrames(false), [][]byte{{0x01}},
+		func(tg string, y func(c08.Case) bool) bool { return c08.BoltGrid(tg, false, y) }}})
 }
 
 func TestVerifC08BoltV2(t *testing.T) {
 	t.Parallel()
-	c08Run(t, "boltv2", []c08Target{{"boltv2", c08.BoltFrames(true), [][]byte{{0x02}}}})
+	c08Run(t, "boltv2", []c08Target{{"boltv2", c08.BoltFrames(true), [][]byte{{0x02}},
+		func(tg string, y func(c08.Case) bool) bool { return c08.BoltGrid(tg, true, y) }}})
 }
 
 func TestVerifC08Dubbo(t *testing.T) {
 	t.Parallel()
 	// the decoder's behaviour depends on the listener name variable (attachment parsing)
 	c08Run(t, "dubbo", []c08Target{
-		{"dubbo", c08.DubboFrames(), [][]byte{{0xda, 0xbb}}},
-		{"dubbo/" + dubbo.IngressDubbo, c08.DubboFrames(), nil},
-		{"dubbo/" + dubbo.EgressDubbo, c08.DubboFrames(), nil},
+		{"dubbo", c08.DubboFrames(), [][]byte{{0xda, 0xbb}}, c08.DubboGrid},
+		{"dubbo/" + dubbo.IngressDubbo, c08.DubboFrames(), nil, c08.DubboGrid},
+		{"dubbo/" + dubbo.EgressDubbo, c08.DubboFrames(), nil, c08.DubboGrid},
 	})
 }
 
 func TestVerifC08DubboThrift(t *testing.T) {
 	t.Parallel()
-	c08Run(t, "dubbothrift", []c08Target{{"dubbo-thrift", c08.ThriftFrames(), [][]byte{{0xda, 0xbc}}}})
+	c08Run(t, "dubbothrift", []c08Target{{"dubbo-thrift", c08.ThriftFrames(), [][]byte{{0xda, 0xbc}}, nil}})
 }
 
 func TestVerifC08Tars(t *testing.T) {
 	t.Parallel()
 	// tars has no magic; the matcher keys on byte 4 == 0x10 (iVersion head); 0x00 0x00 is the top of every sane length prefix
-	c08Run(t, "tars", []c08Target{{"tars", c08.TarsFrames(), [][]byte{{0x00, 0x00}, {0x10}}}})
+	c08Run(t, "tars", []c08Target{{"tars", c08.TarsFrames(), [][]byte{{0x00, 0x00}, {0x10}}, nil}})
 }
 
 // Vacuity guard: every frame of the alphabets decodes to a frame consuming exactly its bytes.
@@ -205,8 +217,8 @@ func TestVerifC08Alphabet(t *testing.T) {
 		return
 	}
 	p := vreport.Begin("C08", "codec-alphabet-valid", time.Minute)
-	all := []c08Target{{"bolt", c08.BoltFrames(false), nil}, {"boltv2", c08.BoltFrames(true), nil}, {"dubbo", c08.DubboFrames(), nil},
-		{"dubbo/" + dubbo.IngressDubbo, c08.DubboFrames(), nil}, {"dubbo-thrift", c08.ThriftFrames(), nil}, {"tars", c08.TarsFrames(), nil}}
+	all := []c08Target{{"bolt", c08.BoltFrames(false), nil, nil}, {"boltv2", c08.BoltFrames(true), nil, nil}, {"dubbo", c08.DubboFrames(), nil, nil},
+		{"dubbo/" + dubbo.IngressDubbo, c08.DubboFrames(), nil, nil}, {"dubbo-thrift", c08.ThriftFrames(), nil, nil}, {"tars", c08.TarsFrames(), nil, nil}}
 	for _, tg := range all {
 		for _, f := range tg.frames {
 			p.Eval()
